@@ -35,8 +35,6 @@
 use smoltcp::iface::SocketHandle;
 use smoltcp::socket::dns::{self, GetQueryResultError, MulticastDns, QueryHandle};
 use smoltcp::wire::{DnsQueryType, IpCidr};
-use std::sync::atomic::{AtomicU64, Ordering};
-use std::sync::{Arc, Mutex, Once};
 use vkit::indep::*;
 use vkit::runner::{Fail, Part, Prop};
 use vkit::sim::{us, Hw, Node};
@@ -48,85 +46,22 @@ use rdns::*;
 
 const SEC: i64 = 1_000_000;
 const MAX_ITERS: usize = 600;
-const HANG_SECS: u64 = 5;
+/// CPU time a single call into the DNS socket / parser may consume before it counts as
+/// not terminating (a legitimate call needs microseconds)
+const HANG_CPU_MS: u64 = 5_000;
 
 // ------------------------------------------------------------------ watchdog
 //
-// A loop inside smoltcp never returns to the case function, so the ">5 s in one
-// call" rule needs a second thread: every call into smoltcp is bracketed by
-// arm()/disarm(); the watchdog thread writes the tape drawn so far as a replay
+// A loop inside smoltcp never returns to the case function, so every call into smoltcp is
+// bracketed by arm()/disarm() of vkit::hang: its watchdog thread judges the CPU time the
+// call consumes (never the wall-clock time), writes the tape drawn so far as a replay
 // file, prints the violation and ends the process with the violation exit code.
 
-struct Slot {
-    /// milliseconds since `EPOCH` at which the current call into smoltcp began; 0 = idle
-    since: AtomicU64,
-    tape: Mutex<Vec<u64>>,
-    what: Mutex<&'static str>,
-}
-
-static SLOTS: Mutex<Vec<Arc<Slot>>> = Mutex::new(Vec::new());
-static WATCHDOG: Once = Once::new();
-
-fn epoch() -> std::time::Instant {
-    static EPOCH: std::sync::OnceLock<std::time::Instant> = std::sync::OnceLock::new();
-    *EPOCH.get_or_init(std::time::Instant::now)
-}
-
-thread_local! {
-    static MY_SLOT: Arc<Slot> = {
-        let s = Arc::new(Slot { since: AtomicU64::new(0), tape: Mutex::new(Vec::new()), what: Mutex::new("") });
-        SLOTS.lock().unwrap().push(s.clone());
-        s
-    };
-}
-
-fn watchdog_main() {
-    loop {
-        std::thread::sleep(std::time::Duration::from_millis(250));
-        let now = epoch().elapsed().as_millis() as u64;
-        let slots: Vec<Arc<Slot>> = SLOTS.lock().unwrap().clone();
-        for s in slots {
-            let since = s.since.load(Ordering::SeqCst);
-            if since != 0 && now > since + HANG_SECS * 1000 {
-                let tape = s.tape.lock().unwrap().clone();
-                let what = *s.what.lock().unwrap();
-                let mut d = vkit::Digest::new();
-                d.str("hang");
-                for v in &tape {
-                    d.u64(*v);
-                }
-                let path = format!("{}/replays/new/C19-{:016x}.tape", vkit::runner::out_root(), d.finish());
-                let f = Fail::new("hang", format!("a single {} did not return within {} s of wall-clock time (tape = the draws made before that call; replaying it hangs again)", what, HANG_SECS));
-                vkit::runner::write_replay(&path, "C19", "resolver", &tape, &f, &[]);
-                println!("failure key={} part=resolver : {}", f.key, f.msg);
-                println!("VIOLATION property=C19 replay={}", path);
-                std::process::exit(1);
-            }
-        }
-    }
-}
-
 fn arm(src: &Src, what: &'static str) {
-    WATCHDOG.call_once(|| {
-        let _ = epoch();
-        std::thread::spawn(watchdog_main);
-    });
-    MY_SLOT.with(|s| {
-        {
-            let mut t = s.tape.lock().unwrap();
-            t.clear();
-            t.extend(src.tape.iter().map(|v| v.0));
-        }
-        *s.what.lock().unwrap() = what;
-        s.since.store(epoch().elapsed().as_millis() as u64 + 1, Ordering::SeqCst);
-    });
+    vkit::hang::arm(src, "C19", "resolver", what, "hang", HANG_CPU_MS);
 }
-
 fn disarm() -> u64 {
-    MY_SLOT.with(|s| {
-        let since = s.since.swap(0, Ordering::SeqCst);
-        (epoch().elapsed().as_millis() as u64 + 1).saturating_sub(since)
-    })
+    vkit::hang::disarm()
 }
 
 /// Run one call into smoltcp under the watchdog. A panic unwinds through here
@@ -136,16 +71,14 @@ fn watched<T>(src: &Src, what: &'static str, f: impl FnOnce() -> T) -> Result<T,
     struct Guard;
     impl Drop for Guard {
         fn drop(&mut self) {
-            MY_SLOT.with(|s| s.since.store(0, Ordering::SeqCst));
+            let _ = vkit::hang::disarm();
         }
     }
     let g = Guard;
     let r = f();
     std::mem::forget(g);
-    let ms = disarm();
-    if ms > HANG_SECS * 1000 {
-        return Err(Fail::new("hang", format!("a single {} took {} ms of wall-clock time", what, ms)));
-    }
+    let _ms = disarm();
+    let _ = what;
     Ok(r)
 }
 
@@ -1708,7 +1641,7 @@ pub fn prop() -> Prop {
             "statement read permissively: any source address is fine from port 5353 (also for unicast queries), name comparison may be case-insensitive, QR/opcode/rcode/TC/class/question-count are not matching attributes, addresses may come from any A/AAAA record whose owner is reachable from the queried name over CNAME records of the answer section in any order",
             "termination bound 20 s x servers + 1 s per query (+1 s when polls are drawn late); mDNS queries count the two multicast groups as servers; on Ethernet with several queries a query that exceeds it but stays within (bound x number of queries) is only counted under the label observed:query-blocked-behind-other-queries (time is still bounded, so the statement holds)",
             "back-off and fail-over timing are judged on Medium::Ip with distinct servers only (neighbour discovery delays datagrams on Ethernet)",
-            "a loop inside smoltcp is detected by a wall-clock watchdog thread (5 s) that writes the tape and exits with the violation code",
+            "a loop inside smoltcp is detected by a watchdog thread measuring the CPU time one call consumes without returning (> 5 s; never the wall-clock time), which writes the tape and exits with the violation code; a call that stalls without consuming CPU ends the run as inconclusive (exit 2)",
         ],
     }
 }
